@@ -3,6 +3,7 @@ package main
 import (
 	"fmt"
 	"math/big"
+	"strings"
 	"time"
 )
 
@@ -13,6 +14,57 @@ func init() { propChecks["C14"] = checkC14 }
 var c14NoteTexts = []string{"ok 1", "free text 2", "ate 50% of the usual portion", "3.5% fat", "100%", "a, b (c) / d + e = f!", "%d %s %v %", "don't & won't", "бележка 7", "x%y%z"}
 
 var c14Formats = []string{"2006/01/02", "2006-01-02", "02.01.2006", "Jan 2 2006"}
+
+// c14LargeDays: days of the large log; c14Uniform: when set, renders the file (instead of the per-line layout choices)
+var c14LargeDays = 400
+var c14Uniform func(x *Exec, f absFile) string
+
+var c14UniformNames = []string{"plain", "comment-in-first-column-before-every-entry", "bare-hash-before-every-heading", "blank-line-before-every-line", "crlf", "tab-indent", "dash-entries", "trailing-blanks", "quoted-names", "comment-in-first-column-after-every-second-entry", "blank-line-with-spaces-before-every-entry"}
+
+// c14UniformDay writes one day with layout variation v on every line
+func c14UniformDay(sb *strings.Builder, r absRecord, v int) {
+	eol, ind, trail := "\n", "  ", ""
+	switch v {
+	case 4:
+		eol = "\r\n"
+	case 5:
+		ind = "\t"
+	case 6:
+		ind = "  - "
+	case 7:
+		trail = " \t"
+	}
+	if v == 2 {
+		sb.WriteString("#" + eol)
+	}
+	if v == 3 {
+		sb.WriteString(eol)
+	}
+	sb.WriteString(r.Header + ":" + trail + eol)
+	for i, it := range r.Items {
+		switch {
+		case v == 1, v == 9 && i%2 == 0 && i > 0:
+			sb.WriteString("# a remark in the first column" + eol)
+		case v == 3:
+			sb.WriteString(eol)
+		case v == 10:
+			sb.WriteString("   " + eol)
+		}
+		if it.IsNote {
+			if it.Name != "" {
+				sb.WriteString(ind + "# " + it.Name + ": " + it.NoteText + trail + eol)
+			} else {
+				sb.WriteString(ind + "# " + it.NoteText + trail + eol)
+			}
+			continue
+		}
+		name := it.Name
+		if v == 8 {
+			name = `"` + name + `"`
+		}
+		sb.WriteString(ind + name + ": " + it.NumText + trail + eol)
+	}
+}
 
 func checkC14(w *Worker) {
 	w.appInit()
@@ -38,7 +90,11 @@ func checkC14(w *Worker) {
 			k := 0
 			if maxRec == 0 {
 				// large log: 400 days x 4 items, crossing the input and output buffers many times
-				for r := 0; r < 400; r++ { // more than a year: the same day-of-year occurs twice
+				days := c14LargeDays
+				if c14Uniform != nil {
+					days *= 1 + 2*x.Choose(2, "input:size") // 1400 or 4200 days
+				}
+				for r := 0; r < days; r++ { // more than a year: the same day-of-year occurs twice
 					d := dates[0].AddDate(0, 0, r)
 					if r == 7 {
 						d = dates[0] // the period's day occurs twice
@@ -76,7 +132,12 @@ func checkC14(w *Worker) {
 				}
 				f = append(f, rec)
 			}
-			text, _ := renderFile(x, f, renderOpts{})
+			var text string
+			if c14Uniform != nil {
+				text = c14Uniform(x, f)
+			} else {
+				text, _ = renderFile(x, f, renderOpts{})
+			}
 			global := []string{"--date-format", format}
 			env := map[string]string{}
 			extraFiles := map[string]string{}
@@ -228,6 +289,19 @@ func checkC14(w *Worker) {
 		all[i] = i
 	}
 	w.Explore("large-log", ExploreOpts{ShardDepth: 2, Budgets: map[string]int{"layout": 0, "src": 0}}, body(0, []int{0, 3, 5, 13, 20}))
+	// long logs (130 KiB .. 600 KiB: beyond any "small file" shortcut, beyond 64 and 128 KiB blocks) with one layout
+	// variation applied to every line of the file - wherever a reader cuts the file, the variation is there
+	c14LargeDays = 1400
+	c14Uniform = func(x *Exec, f absFile) string {
+		v := x.Choose(len(c14UniformNames), "input:layout-of-every-line")
+		var sb strings.Builder
+		for _, r := range f {
+			c14UniformDay(&sb, r, v)
+		}
+		return sb.String()
+	}
+	w.Explore("long-logs-one-layout-on-every-line", ExploreOpts{ShardDepth: 3, Budgets: map[string]int{"layout": 0, "src": 0}}, body(0, []int{0, 13}))
+	c14LargeDays, c14Uniform = 400, nil
 	w.Explore("names-x-formats-default-layout", ExploreOpts{ShardDepth: 6, Budgets: map[string]int{"layout": 0, "src": 0}}, body(maxRec, all))
 	w.Explore(fmt.Sprintf("layout-dev%d", dev), ExploreOpts{ShardDepth: 6, Budgets: map[string]int{"layout": dev, "src": 0}}, body(1, []int{2, 4}))
 	// formats without a year and with a two-digit year (headings parse to year 0 / to 19xx-20xx), and periods open at one end
